@@ -379,6 +379,15 @@ def applyOp (toks : List String) (w : World ByteArray) : Except Err (World ByteA
       | f+1, .dir es => .dir (es.map fun (nm, n) => (nm, dangle f n))
       | _, n => n
     (.ok { w with ws := dangle 64 w.ws }, #[])
+  | ["rmcachedir"] => (if w.store.isEmpty then .ok w else .error .other, #[])
+  | ["movecache"] =>
+    -- the cache directory is moved and re-configured: every link into it dangles, the objects are all still there
+    let rec dangle2 : Nat → Node ByteArray → Node ByteArray
+      | 0, n => n
+      | _, .link (.obj _) => .link (.foreign false)
+      | f+1, .dir es => .dir (es.map fun (nm, n) => (nm, dangle2 f n))
+      | _, n => n
+    (.ok { w with ws := dangle2 400 w.ws }, #[])
   | ["wipecache"] => (.ok { w with store := [] }, #[])
   | "clone" :: keep =>
     let ws := keep.foldl (fun (ws : Node ByteArray) d => (setPath ws (Path.comps (unhex d)) (.dir [])).getD ws) (.dir [])
